@@ -352,6 +352,15 @@ func genPrettyEnc(g *G, tier string, emit func(string)) {
 	}
 	genDeep(emit)
 	genLengths(emit)
+	// strings with every byte value at the start, in the middle and at the end (the printer's escape classes and the
+	// runs of ordinary text between them), as values and as keys
+	for b := 0; b < 256; b++ {
+		h := fmt.Sprintf("%02x", b)
+		for _, str := range []string{h, "61" + h, h + "62", "6161" + h + "6262" + h} {
+			emit("s" + str)
+			emit("{1 s" + str + " s" + str + " }")
+		}
+	}
 }
 
 // genLengths: string and byte-string tokens of every length around the encoders' scratch buffers (pretty: 64 bytes,
